@@ -11,6 +11,7 @@ ASSUME ndJsonSerialize(IOEnv.FAULTPLANS, Concat([i \in 1..Len(Regions) |-> Plans
 \* Apply is consistent with its descriptors (spot check)
 ASSUME Apply(<<1, 2, 3, 4>>, [op |-> "set16be", off |-> 1, v |-> 258]) = <<1, 1, 2, 4>>
 ASSUME Apply(<<1, 2, 3, 4>>, [op |-> "trunc", at |-> 2]) = <<1, 2>>
+ASSUME Apply(<<1, 2, 3, 4>>, [op |-> "add8", off |-> 0, d |-> -2]) = <<255, 2, 3, 4>>
 VARIABLE x
 Init == x = 0
 Next == UNCHANGED x
